@@ -48,6 +48,7 @@ def step (st : St) (ws : List String) : St × String × String × String :=
   match ws with
   | ["tx"] => ({ st with m := runL st.m [.cW, .cI] }, "ok", "ok", "")
   | ["compact"] => ({ st with m := runL st.m [.kP, .kS, .kM] }, "ok", "ok", "")
+  | ["close_reopen"] => ({ st with m := runL st.m [.close, .reopen] }, "ok", "ok", "")
   | "source" :: _ => let t := specTok st.m.hasIndex st.m.wal.txs; (st, t, t, "")
   | ["backup"] =>
     match st.m.bk with
